@@ -1,6 +1,7 @@
 package core
 
 import (
+	"go/types"
 	"go/token"
 
 	"golang.org/x/tools/go/ssa"
@@ -54,6 +55,10 @@ func RangeLoops(fn *ssa.Function) []*RangeLoop {
 				// rangeindex loop: cond is idx < len(X) with idx = phi + 1
 				bo, ok := x.Cond.(*ssa.BinOp)
 				if !ok || bo.Op != token.LSS {
+					continue
+				}
+				if l := countedLoop(b, bo); l != nil {
+					out = append(out, l)
 					continue
 				}
 				add, ok := bo.X.(*ssa.BinOp)
@@ -178,4 +183,56 @@ func FieldNameOfLoad(v ssa.Value) (string, ssa.Value, bool) {
 		return "", nil, false
 	}
 	return f.Name(), fa.X, true
+}
+
+// countedLoop recognises the hand-written form of a slice range loop,
+//
+//	for i := 0; i < len(x); i++ { ... x[i] ... }
+//
+// (also with the length hoisted into a local before the loop): the header
+// block b ends in `i < len(x)` where i is a phi of b that starts at 0 and is
+// stepped by exactly 1 on every back edge. It is reported like a range loop
+// over x with key i.
+func countedLoop(b *ssa.BasicBlock, cond *ssa.BinOp) *RangeLoop {
+	ph, ok := cond.X.(*ssa.Phi)
+	if !ok || ph.Block() != b || len(b.Succs) != 2 {
+		return nil
+	}
+	ln, ok := cond.Y.(*ssa.Call)
+	if !ok {
+		return nil
+	}
+	bi, ok := ln.Call.Value.(*ssa.Builtin)
+	if !ok || bi.Name() != "len" {
+		return nil
+	}
+	if _, isSlice := ln.Call.Args[0].Type().Underlying().(*types.Slice); !isSlice {
+		return nil
+	}
+	// the length is taken in the header or before the loop
+	if ln.Block() != b && !ln.Block().Dominates(b) {
+		return nil
+	}
+	entries, steps := 0, 0
+	for i, e := range ph.Edges {
+		if b.Dominates(b.Preds[i]) {
+			add, ok := e.(*ssa.BinOp)
+			if !ok || add.Op != token.ADD || add.X != ssa.Value(ph) {
+				return nil
+			}
+			if one, ok := ConstInt(add.Y); !ok || one != 1 {
+				return nil
+			}
+			steps++
+		} else {
+			if z, ok := ConstInt(e); !ok || z != 0 {
+				return nil
+			}
+			entries++
+		}
+	}
+	if entries == 0 || steps == 0 {
+		return nil
+	}
+	return &RangeLoop{Over: ln.Call.Args[0], Header: b, Body: b.Succs[0], Done: b.Succs[1], Key: ph}
 }
